@@ -23,16 +23,20 @@ type harnessCfg struct {
 	wallLimit      time.Duration
 	concurrent     bool
 	numCPU         int
+	forkIndexBelow int
 	maxSchedPoints int
 }
 
 func defaultCfg() harnessCfg {
-	return harnessCfg{maxSteps: 2000000, maxDepth: 200, maxDecisions: 400, maxConcretize: 64, maxPaths: 200000, solver: "z3", timeoutMs: 30000, wallLimit: 10 * time.Minute, maxSchedPoints: 60}
+	return harnessCfg{maxSteps: 2000000, maxDepth: 200, maxDecisions: 5000, maxConcretize: 64, maxPaths: 200000, solver: "z3", timeoutMs: 30000, wallLimit: 10 * time.Minute, maxSchedPoints: 60, forkIndexBelow: 8}
 }
 
 type runStats struct {
 	paths         int
 	decisions     int
+	forced        int
+	unsatPC       int
+	dupViolations int
 	feasQueries   int
 	assertQuery   int
 	discharged    int
@@ -263,6 +267,18 @@ func (in *Interp) feasibleAssume(c *Term) bool {
 	if c.isConst() {
 		return c.cval != 0
 	}
+	if in.pos < len(in.path) {
+		// replaying a recorded prefix: this assumption passed before under
+		// the same path condition
+		in.addPC(c)
+		return true
+	}
+	if kv, ok := in.known(c); ok {
+		if kv {
+			in.addPC(c)
+		}
+		return kv
+	}
 	if mv, ok := in.evalUnderModel(c); ok && mv {
 		in.addPC(c)
 		return true
@@ -275,6 +291,10 @@ func (in *Interp) feasibleAssume(c *Term) bool {
 }
 
 func (in *Interp) assert(c value, msg string) {
+	if in.pos < len(in.path) && !in.concrete {
+		// replaying a recorded prefix: discharged before under the same pc
+		return
+	}
 	in.stats.assertQuery++
 	switch c := c.(type) {
 	case bool:
@@ -292,7 +312,9 @@ func (in *Interp) assert(c value, msg string) {
 		switch res {
 		case rUnsat:
 			in.stats.discharged++
-			in.addPC(c)
+			if !in.uncertain {
+				in.implied[c] = implEnt{true, len(in.pc)}
+			}
 			return
 		case rSat:
 			in.reportViolation("assert", msg, model)
@@ -300,9 +322,7 @@ func (in *Interp) assert(c value, msg string) {
 		default:
 			in.stats.inconclusive++
 			in.stats.samples = append(in.stats.samples, "INCONCLUSIVE assertion: "+msg)
-			// continue under the assumption that it holds
-			in.addPC(c)
-			in.model = nil
+			panic(pathEnd{"inconclusive", msg})
 		}
 	default:
 		panic(fmt.Sprintf("vAssert: %T", c))
@@ -322,8 +342,21 @@ func (in *Interp) reportViolation(kind, msg string, model map[string]uint64) {
 			model = map[string]uint64{}
 			if res == rUnsat {
 				// the path was only kept because of an unknown answer
+				if os.Getenv("GOSYM_DEBUG2") != "" {
+					fmt.Fprintf(os.Stderr, "UNSAT-PC at violation %s: path=%v\n", msg, in.path[:in.pos])
+					for _, c := range in.pc {
+						fmt.Fprintf(os.Stderr, "   pc: %s = %s\n", c.ref(), c.body())
+					}
+				}
+				in.stats.unsatPC++
 				return
 			}
+		}
+	}
+	for _, old := range in.stats.violations {
+		if old.Msg == msg && old.Kind == kind {
+			in.stats.dupViolations++
+			return // one witness per failing assertion is enough
 		}
 	}
 	v := violation{Harness: in.cfg0name, Msg: msg, Kind: kind, Inputs: map[string]string{}}
@@ -332,7 +365,7 @@ func (in *Interp) reportViolation(kind, msg string, model map[string]uint64) {
 		v.Order = append(v.Order, ir.name)
 	}
 	for _, d := range in.path[:in.pos] {
-		v.Path = append(v.Path, d.chosen)
+		v.Path = append(v.Path, d.Chosen)
 	}
 	in.stats.violations = append(in.stats.violations, v)
 }
@@ -366,10 +399,16 @@ type harnessResult struct {
 	EngineErrors  []string       `json:"engine_errors"`
 	Bounds        map[string]int `json:"bounds"`
 	Traces        []string       `json:"traces,omitempty"`
+	Frontier      [][]decision   `json:"-"`
+	Workers       int            `json:"workers,omitempty"`
 }
 
 func (in *Interp) resetPath() {
 	in.pc = in.pc[:0]
+	in.pcSet = map[*Term]bool{}
+	if in.implied == nil {
+		in.implied = map[*Term]implEnt{}
+	}
 	in.pos = 0
 	in.model = nil
 	in.modelMemo = nil
@@ -440,15 +479,21 @@ func (in *Interp) errorMessage(itf iface) (msg string) {
 	return ""
 }
 
-func (in *Interp) explore(fn *ssa.Function, name string) *harnessResult {
+func (in *Interp) explore(fn *ssa.Function, name string, prefixes [][]decision) *harnessResult {
 	start := time.Now()
 	in.cfg0name = name
 	in.stats = runStats{unsupported: map[string]int{}, boundEnds: map[string]int{}, stubsUsed: map[string]int{}, reachedAll: map[string]int{}}
 	in.funcsSeen = map[string]bool{}
-	in.path = nil
 	res := &harnessResult{Name: name, Solver: in.cfg.solver}
 	var engineErrs []string
 	complete := true
+	if prefixes == nil {
+		prefixes = [][]decision{nil}
+	}
+	pi := 0
+	in.path = append([]decision(nil), prefixes[0]...)
+	in.base = len(in.path)
+	in.implied = map[*Term]implEnt{}
 	for {
 		in.resetPath()
 		kind, msg := in.runOnePath(fn)
@@ -458,6 +503,8 @@ func (in *Interp) explore(fn *ssa.Function, name string) *harnessResult {
 		}
 		switch kind {
 		case "ok", "assume", "violation", "done":
+		case "frontier":
+			in.stats.paths-- // handed to a worker, not a completed path
 		case "panic":
 			in.reportViolation("panic", "panic: "+msg, nil)
 		case "deadlock":
@@ -472,18 +519,25 @@ func (in *Interp) explore(fn *ssa.Function, name string) *harnessResult {
 		if len(in.stats.samples) < 6 && (kind == "ok" || kind == "violation") {
 			in.stats.samples = append(in.stats.samples, in.describePath(kind))
 		}
-		if len(engineErrs) > 5 || len(in.stats.violations) >= 5 {
+		if len(engineErrs) > 5 || len(in.stats.violations) >= 8 || in.stats.dupViolations > 200 {
 			complete = false
 			break
 		}
 		if !in.backtrack() {
-			break
+			pi++
+			if pi >= len(prefixes) {
+				break
+			}
+			in.path = append([]decision(nil), prefixes[pi]...)
+			in.base = len(in.path)
+			in.implied = map[*Term]implEnt{}
 		}
 		if in.stats.paths >= in.cfg.maxPaths || time.Since(start) > in.cfg.wallLimit {
 			complete = false
 			break
 		}
 	}
+	res.Frontier = in.frontier
 	res.Paths = in.stats.paths
 	res.Decisions = in.stats.decisions
 	res.FeasQueries = in.stats.feasQueries
@@ -523,7 +577,7 @@ func (in *Interp) describePath(kind string) string {
 			sb.WriteString("…")
 			break
 		}
-		fmt.Fprintf(&sb, "%d/%d", d.chosen, d.k)
+		fmt.Fprintf(&sb, "%d/%d", d.Chosen, d.K)
 	}
 	fmt.Fprintf(&sb, "] inputs=%d pc=%d conjuncts", len(in.inputs), len(in.pc))
 	if len(in.pc) > 0 {
